@@ -17,17 +17,30 @@ impl FixtureDatabase {
     /// Analyze a Python file for fixtures and usages.
     /// This is the public API - it cleans up previous definitions before analyzing.
     pub fn analyze_file(&self, file_path: PathBuf, content: &str) {
-        self.analyze_file_internal(file_path, content, true);
+        self.analyze_file_internal(file_path, Some(content), true);
     }
 
     /// Analyze a file without cleaning up previous definitions.
     /// Used during initial workspace scan when we know the database is empty.
     pub(crate) fn analyze_file_fresh(&self, file_path: PathBuf, content: &str) {
-        self.analyze_file_internal(file_path, content, false);
+        self.analyze_file_internal(file_path, Some(content), false);
     }
 
-    /// Internal file analysis with optional cleanup of previous definitions
-    fn analyze_file_internal(&self, file_path: PathBuf, content: &str, cleanup_previous: bool) {
+    /// Re-analyze an already known file from its current content (editor buffer if cached,
+    /// disk otherwise). The content is read while the file's analysis lock is held, so a
+    /// notification handled concurrently is never overwritten with an older text.
+    pub(crate) fn reanalyze_file(&self, file_path: PathBuf) {
+        self.analyze_file_internal(file_path, None, true);
+    }
+
+    /// Internal file analysis with optional cleanup of previous definitions.
+    /// `content` is `None` when the current content of the file is to be used.
+    fn analyze_file_internal(
+        &self,
+        file_path: PathBuf,
+        content: Option<&str>,
+        cleanup_previous: bool,
+    ) {
         // Use cached canonical path to avoid repeated filesystem calls
         let file_path = self.get_canonical_path(file_path);
 
@@ -46,6 +59,18 @@ impl FixtureDatabase {
         #[cfg(pytest_language_server_verif)]
         let _verif_release =
             super::verif_hooks::ReleaseOnDrop(std::sync::Arc::as_ptr(&file_lock) as usize);
+
+        let current_content;
+        let content = match content {
+            Some(content) => content,
+            None => match self.get_file_content(&file_path) {
+                Some(cached) => {
+                    current_content = cached;
+                    current_content.as_str()
+                }
+                None => return,
+            },
+        };
 
         // The scan path assumes nothing is known about the file yet. If it was analyzed
         // already (an open editor buffer is newer than the content on disk), keep that
